@@ -11,6 +11,7 @@
 //
 // Assumed: the evaluator as a deterministic function `apply`; the element function answers a str (C01) that satisfies
 // `wf`; the literals "[", ", ", "]" are ASCII text.
+#![feature(allocator_api)]
 #![allow(unused_imports, dead_code, unused_variables, unused_mut, unreachable_code)]
 use vstd::prelude::*;
 use std::mem::size_of;
@@ -357,6 +358,20 @@ impl FencedString {
 impl Rt {
     /// pre-flight allocation check (C09)
     #[verifier::external_body] pub fn can_allocate(&self, n: usize) -> (r: RuntimeResult<()>) { unimplemented!() }
+}
+pub assume_specification<X: ?Sized, A: core::alloc::Allocator> [<Box<X, A> as AsRef<X>>::as_ref] (b: &Box<X, A>) -> (r: &X)
+    ensures r == &**b;
+/// the text the k-th component function answers for x[k]
+pub open spec fn ctans(funcs: Items, x: Items, k: int) -> EvaluatedValue { apply(funcs.v@[k].value->Function_0, seq![Ok(x.v@[k])]) }
+pub open spec fn funcs_answer_str(funcs: Items) -> bool {
+    forall|k: int, s: Seq<EvaluatedValue>| 0 <= k < funcs.v@.len() ==> funcs.v@[k].value is Function
+        && ((#[trigger] apply(funcs.v@[k].value->Function_0, s)) matches Ok(c) ==> c.value is String && c.value->String_0.wf())
+}
+/// "(" + t0 + ", " + t1 + .. for the first n components (without the closing bracket)
+pub open spec fn tup_acc(funcs: Items, x: Items, n: int) -> Seq<u8>
+    decreases n
+{
+    if n <= 0 { lit("(") } else if n == 1 { lit("(") + ttext(ctans(funcs, x, 0)) } else { tup_acc(funcs, x, n - 1) + lit(", ") + ttext(ctans(funcs, x, n - 1)) }
 }
 /// the text the element function answers for the k-th element
 pub open spec fn tans(f: Val, x: XSeq, k: int) -> EvaluatedValue { apply(f.value->Function_0, seq![x.at(k)->Ok_0]) }
